@@ -113,6 +113,14 @@ def shared_jobs(tier, s0, names=None):
                                   odd_population=True), {'d': 0}))
             jobs.append((_scn(n, cycles=2, seed=s0, over={'population_size': registry.doc_population(n) + add},
                               odd_population=True, mode='thread', workers=3), {'d': 0}))
+    # (G) populations BELOW the documented scale (5, 6, 8): C06 and C10 do not claim them (most optimizers index
+    #     fixed-size side arrays), but the universally quantified properties (feasibility, cost truth, best solution,
+    #     unchanged inputs, history fidelity, elitism) are still checked on every run that completes
+    for n in names:
+        for pop in (5, 6, 8):
+            for mm in ('min', 'max'):
+                jobs.append((_scn(n, 'cont3z', mm, cycles=3, seed=s0, over={'population_size': pop},
+                                  small_population=True), {'d': 0}))
     # (F) one-parameter deviations of every algorithm parameter to its neighbouring accepted values (d = 0); the
     #     population-size equality of C10 is not claimed under them (DESIGN C10), only its bounds
     for n in names:
